@@ -54,6 +54,7 @@ struct thr {
 	int in_sig;
 	int frozen_was;
 	unsigned long yields;
+	unsigned long run_since_switch;	/* scheduling points taken since this thread last yielded, blocked or was preempted */
 	unsigned long empt[256]; int nempt;	/* steps at which this thread's store buffer became empty */
 };
 
@@ -67,6 +68,7 @@ static unsigned long max_steps = 60000;
 static long min_prio = 0, max_prio = 1000000;
 static unsigned long writes_epoch, last_progress_step;
 #define NOPROG 6000
+#define SLICE 1000
 static uint64_t flags;
 static int trace;
 static int result_fd = 2;
@@ -383,6 +385,9 @@ static void sched_point(void)
 	for (int i = 0; i < ncp; i++)
 		if (tmatch(me, cps[i].tid) && ((cps[i].op == me->cur_op && cps[i].k == me->op_pts) || (cps[i].op == -1 && cps[i].k == me->lsteps)))
 			me->prio = --min_prio;
+	/* time slice: a thread that computes for SLICE scheduling points without ever yielding or blocking is preempted like a yielding one (a real
+	 * scheduler is fair; without this a busy loop that contains no wait hint would starve every lower-priority thread) */
+	if (++me->run_since_switch > SLICE) { me->run_since_switch = 0; me->prio = --min_prio; flags |= 1ull << DSF_TIMESLICE; }
 	if (rw_permille && (int)(xs(&rw_rng) % 1000) < rw_permille) {
 		int cand[MAXT], nc = 0;
 		for (int i = 0; i < nT; i++) if (T[i].state == ST_RUN) cand[nc++] = i;
@@ -398,7 +403,7 @@ static void yield_hint(void)
 	struct thr *me = self;
 	if (!active || !me || in_rt) return;
 	in_rt = 1;
-	ds_step++; me->lsteps++; me->op_pts++; me->yields++;
+	ds_step++; me->lsteps++; me->op_pts++; me->yields++; me->run_since_switch = 0;
 	check_progress();
 	sb_drain(me);	/* a flush is always permitted; keeps a held store from looking like a lost wake-up */
 	if (solo_on && me->scen_idx == freeze_solo && !me->daemon) solo_yields++;
@@ -436,6 +441,7 @@ unsigned long ds_solo_yields(void) { return solo_yields; }
 static void block_on(int kind, void *obj)
 {
 	struct thr *me = self;
+	me->run_since_switch = 0;
 	me->state = ST_BLOCK; me->bkind = kind; me->bobj = obj;
 	resched();
 }
@@ -625,7 +631,8 @@ int __wrap_pthread_mutex_lock(pthread_mutex_t *m)
 	if (!active || !me || in_rt) return __real_pthread_mutex_lock(m);
 	sched_point();
 	in_rt = 1; sb_drain(me);
-	while (__real_pthread_mutex_trylock(m) != 0) { flags |= 1ull << DSF_MUTEX_BLOCK; if (solo_on && me->scen_idx == freeze_solo) solo_yields++; block_on(BK_MUTEX, m); }
+	while (__real_pthread_mutex_trylock(m) != 0) { flags |= 1ull << DSF_MUTEX_BLOCK; if (trace) fprintf(stderr, "[%6lu E%d] blocks on mutex %p (pid %d)\n", ds_step, me->id, (void *)m, (int)getpid()); if (solo_on && me->scen_idx == freeze_solo) solo_yields++; block_on(BK_MUTEX, m); }
+	if (trace > 1) fprintf(stderr, "[%6lu E%d] locked mutex %p (pid %d)\n", ds_step, me->id, (void *)m, (int)getpid());
 	in_rt = 0;
 	return 0;
 }
@@ -646,6 +653,7 @@ int __wrap_pthread_mutex_unlock(pthread_mutex_t *m)
 	sched_point();
 	in_rt = 1; sb_drain(me);
 	int r = __real_pthread_mutex_unlock(m);
+	if (trace > 1) fprintf(stderr, "[%6lu E%d] unlocked mutex %p (pid %d)\n", ds_step, me->id, (void *)m, (int)getpid());
 	wake_blocked(BK_MUTEX, m, MAXT);
 	last_progress_step = ds_step;
 	in_rt = 0;
@@ -897,7 +905,7 @@ pid_t __wrap_fork(void)
 	struct thr *me = self;
 	if (!active || !me) return __real_fork();
 	sched_point();
-	in_rt = 1; sb_drain_all();
+	in_rt = 1; sb_drain(me);	/* only the caller's buffer: stores still buffered by other threads are not in the memory image the child inherits */
 	flags |= 1ull << DSF_FORKED;
 	pid_t p = __real_fork();
 	if (p == 0) {
